@@ -33,16 +33,20 @@ def hashToks (win : Nat) (h : UInt64) (offs : List Nat) : UInt64 :=
 def runMem (n : Nat) (ws : List (Nat × Nat)) : Array (Option Nat) :=
   ws.foldl (fun (m : Array (Option Nat)) w => if w.1 < m.size then m.set! w.1 (some w.2) else m) (Array.replicate n none)
 
-/-- digest of the result tensor: element = sum over the operand windows of the parent element at the offset -/
-def valDigest (wins : List Nat) (n : Nat) (ws : List (Nat × Nat)) : UInt64 :=
+/-- digest of the result tensor: element = sum over the operand windows (window, coefficient) of
+    coefficient * parent element at the offset -/
+def valDigestC (wins : List (Nat × Int)) (n : Nat) (ws : List (Nat × Nat)) : UInt64 :=
   (runMem n ws).foldl (fun h o =>
     match o with
     | none => Fp.hash h 0
-    | some off => Fp.hash h (wins.foldl (fun (acc : Fp) w => acc + Fp.ofTok w off) 0)) 0
+    | some off => Fp.hash h (wins.foldl (fun (acc : Fp) w => acc + Fp.ofInt w.2 * Fp.ofTok w.1 off) 0)) 0
 
-def consumerObs (tag : String) (wins : List Nat) (n : Nat) (r : Run) : String :=
+def valDigest (wins : List Nat) (n : Nat) (ws : List (Nat × Nat)) : UInt64 :=
+  valDigestC (wins.map fun w => (w, 1)) n ws
+
+def consumerObs (tag : String) (wins : List (Nat × Int)) (n : Nat) (r : Run) : String :=
   let rd := hashNats 0 (sortDedup (r.writes.map (·.2)))
-  s!"C{tag}={hex (valDigest wins n r.writes)} W{tag}={hex (hashNats 0 (r.writes.map (·.1)))} N{tag}={r.writes.length} L{tag}={r.loads * wins.length} R{tag}={hex rd}"
+  s!"C{tag}={hex (valDigestC wins n r.writes)} W{tag}={hex (hashNats 0 (r.writes.map (·.1)))} N{tag}={r.writes.length} L{tag}={r.loads * wins.length} R{tag}={hex rd}"
 
 def runView (kv : List (String × String)) : String := Id.run do
   let some cfgName := getS kv "cfg" | return "bad-op"
@@ -95,16 +99,18 @@ def runView (kv : List (String × String)) : String := Id.run do
   let probe := s!"ADM=1 V={V} SZ={n} DM={"x".intercalate (dims.map toString)} ES={hex (hashToks 1 0 es)} EV={hex (hashToks 1 0 ev)} E2S={hex (hashToks 1 0 e2s)} E2V={hex (hashToks 1 0 (e2v.flatMap (·.2)))} TS={hex (hashToks 1 0 ts)} TV={hex (hashToks 1 0 tv.flatten)} NLT={nlt} NL2={nl2} route={routeName rt} RDP={hex (hashNats 0 (sortDedup allReads))}"
   -- consumers
   let isConst := ck == "c"
+  -- views of a TensorMap are not recognised by `has_tensor_view`: every consumer is `trivial_assign`
+  let isMap := getS kv "par" == some "map"
   let c1 : Run :=
-    if rank == 1 then v.trivialAssign V
+    if rank == 1 || isMap then v.trivialAssign V
     else if is2 then v.ctor2 V (dims.getD 0 0) (dims.getD 1 0)
     else v.ctorN V (!isConst) dims
   let c2 : Run := v.trivialAssign V
   let c3 : Run :=
-    if rank == 1 then v.trivialAssign V
+    if rank == 1 || isMap then v.trivialAssign V
     else if is2 then v.ctor2 V (dims.getD 0 0) (dims.getD 1 0)
     else v.ctorN V false dims
-  return s!"{probe} {consumerObs "1" [1] n c1} {consumerObs "2" [1] n c2} {consumerObs "3" [1, 2] n c3}"
+  return s!"{probe} {consumerObs "1" [(1, 1)] n c1} {consumerObs "2" [(1, 1)] n c2} {consumerObs "3" [(1, 2), (2, 1)] n c3}"
 where
   unflatPos (dims as : List Nat) : Nat := (dims.zip as).foldl (fun acc (d, a) => acc * d + a) 0
 
